@@ -213,7 +213,17 @@ def unary_one(res, s, nw, nf, c, r, o, only=None):
                 want = g(c)
                 case = {'unary': name, 'x': [s, nw, nf], 'cx': c, 'r': r, 'o': o}
                 res.count('U:unary', key=(name, s, nw, nf, c), nontrivial=c != 0)
-                if not (lo <= want <= hi): continue
+                if not (lo <= want <= hi):
+                    # not representable (the negated / absolute lowest code, a negated unsigned code): the result is still an object of the
+                    # format, holding the bound or the residue according to the overflow mode IT carries (well-formed: C02 / C03)
+                    try: z = f(x)
+                    except Exception as e:
+                        res.fail(case, 'C08: unary %s raised %s' % (name, lib.exc_name(e)), got=str(e)[:200]); continue
+                    m_ = 1 << nw; wr = want % m_; wr = wr - m_ if (s and wr >= m_ // 2) else wr
+                    want2 = wr if z.config.overflow == 'wrap' else max(lo, min(hi, want))
+                    if A.fmt_of(z) != (s, nw, nf) or lib.codes_of(z) != [want2]:
+                        res.fail(case, 'C08: unary %s of a code whose exact result is not representable does not store the bound / residue its own overflow mode demands (an out-of-range code?)' % name, expected=(want2, z.config.overflow), got=(A.fmt_of(z), lib.codes_of(z), lib.status3(z)))
+                    continue
                 try:
                     z = f(x)
                 except Exception as e:
